@@ -722,7 +722,7 @@ async fn sock_connect(s: &mut AnySock, text: &str) -> Result<(), ZmqError> {
 fn sock_binds(s: &mut AnySock) -> Vec<Endpoint> {
     each_sock!(s, x => x.binds().keys().cloned().collect())
 }
-fn sock_monitor(s: &mut AnySock) -> futures::channel::mpsc::Receiver<zeromq::SocketEvent> {
+pub fn sock_monitor(s: &mut AnySock) -> futures::channel::mpsc::Receiver<zeromq::SocketEvent> {
     each_sock!(s, x => x.monitor())
 }
 async fn sock_close(s: AnySock) -> usize {
